@@ -17,7 +17,7 @@ echo "RESULT demo_clean_rc=$clean_rc demo_mutant_rc=$mut_rc tests: $tests"
 props=${@:-C01 C02 C03 C04 C05 C06 C07 C08 C09 C10 C11 C12 C13 C14 C15 C16 C17 C18 C19 C20}
 cd "$(dirname "$0")/.."
 for p in $props; do
-  out=$(VERIF_REPO=$WT VERIF_EVIDENCE_DIR=/tmp/seed_evidence VERIF_REPLAY_DIR=/tmp/seed_replays ./run $p --tier ${SEEDTIER:-quick} 2>&1); rc=$?
+  out=$(VERIF_STOP_ON_FIRST=${SEEDSTOP:-1} VERIF_REPO=$WT VERIF_EVIDENCE_DIR=/tmp/seed_evidence VERIF_REPLAY_DIR=/tmp/seed_replays ./run $p --tier ${SEEDTIER:-quick} 2>&1); rc=$?
   echo "CHECK $p rc=$rc $(echo "$out" | grep -m3 'violation:' | tr '\n' ';')"
 done
 rm -f "$WT/_demo.py"; git -C "$WT" checkout -q -- . ; git -C "$WT" clean -qfd
